@@ -142,9 +142,30 @@ pub struct Life {
 pub struct W4Case {
     pub rules: Vec<Value>,
     pub trusted: Option<String>,
+    /// proxies added to the handle afterwards, one add_proxy call each (valid and unparsable values)
+    #[serde(default)]
+    pub extra_proxies: Vec<String>,
     pub lives: Vec<Life>,
     /// which lifecycle makes its next step, in order (entries for finished lifecycles are skipped)
     pub schedule: Vec<usize>,
+}
+
+/// The trusted-proxies handle is a C struct holding one pointer: whatever it points to must be a live allocation
+/// (the handle has no drop function: both live for the rest of the process).
+fn trusted_handle_live(t: *const CTrustedProxies, after: &str, pr: &mut Problems) -> bool {
+    if t.is_null() {
+        return true;
+    }
+    if table().lookup(t as usize).is_none() {
+        pr.add("ownership", format!("after {after}: the trusted-proxies handle itself is not a live allocation"));
+        return false;
+    }
+    let inner = unsafe { *(t as *const usize) };
+    if inner == 0 || table().lookup(inner).is_none() {
+        pr.add("ownership", format!("after {after}: the configuration the trusted-proxies handle points to has been released (dangling handle)"));
+        return false;
+    }
+    true
 }
 
 // ---------------------------------------------------------------------------
@@ -310,7 +331,8 @@ impl World for W4 {
         let schedule: Vec<usize> = (0..total + 8).map(|_| rng.below(lives.len())).collect();
         W4Case {
             rules,
-            trusted: if rng.coin() { Some(rng.pick_str(&["10.0.0.0/8", "10.1.2.3, 127.0.0.1", "bad, ::1"])) } else { None },
+            trusted: if rng.coin() { Some(rng.pick_str(&["10.0.0.0/8", "10.1.2.3, 127.0.0.1", "bad, ::1", "", " , ,"])) } else { None },
+            extra_proxies: (0..rng.below(4)).map(|_| rng.pick_str(&["192.168.0.0/16", "10.1.2.3", "::1", "bad", "", "300.1.1.1", "10.0.0.0/40", " 10.0.0.0/8", "2001:db8::/32", "fe80::1%eth0"])).collect(),
             lives,
             schedule,
         }
@@ -376,6 +398,11 @@ impl World for W4 {
         if case.trusted.is_some() {
             let mut c = case.clone();
             c.trusted = None;
+            out.push(c);
+        }
+        for e in vec_removals(&case.extra_proxies) {
+            let mut c = case.clone();
+            c.extra_proxies = e;
             out.push(c);
         }
         out
@@ -539,12 +566,39 @@ fn pass(case: &W4Case, stats: &mut Vec<&'static str>, record_stats: bool) -> Opt
     // trusted proxies: no drop function exists by design -> immortal
     let before = table().live_ptrs(table().epoch);
     let (_tc, tp) = cstr(case.trusted.as_ref().map(|s| HexStr::s(s)).as_ref());
-    let trusted: *const CTrustedProxies = if case.trusted.is_some() {
+    // the native twin of the handle's configuration, built the way the C functions document it
+    let mut native_cfg = trusted_proxies::Config::default();
+    let mut trusted: *const CTrustedProxies = if let Some(list) = &case.trusted {
         let t = window(901, || unsafe { redirectionio_trusted_proxies_create(tp) });
+        for p in list.split(',') {
+            let p = p.trim();
+            if !p.is_empty() {
+                let _ = native_cfg.add_trusted_ip(p);
+            }
+        }
+        // a handle found dangling is not used any further (the run is a violation already)
+        let mut live = trusted_handle_live(t, "trusted_proxies_create", &mut pr);
+        for e in &case.extra_proxies {
+            if !live {
+                break;
+            }
+            let extra = CString::new(e.clone()).unwrap_or_default();
+            calls += 1;
+            window(902, || unsafe { redirectionio_trusted_proxies_add_proxy(t as *mut CTrustedProxies, extra.as_ptr()) });
+            let _ = native_cfg.add_trusted_ip(e);
+            live = trusted_handle_live(t, &format!("trusted_proxies_add_proxy({e:?})"), &mut pr);
+        }
         let extra = CString::new("192.168.0.0/16").unwrap();
-        window(902, || unsafe { redirectionio_trusted_proxies_add_proxy(t as *mut CTrustedProxies, extra.as_ptr()) });
         window(903, || unsafe { redirectionio_trusted_proxies_add_proxy(std::ptr::null_mut(), extra.as_ptr()) });
-        t
+        if live {
+            window(903, || unsafe { redirectionio_trusted_proxies_add_proxy(t as *mut CTrustedProxies, std::ptr::null()) });
+            live = trusted_handle_live(t, "trusted_proxies_add_proxy(NULL string)", &mut pr);
+        }
+        if live {
+            t
+        } else {
+            std::ptr::null()
+        }
     } else {
         std::ptr::null()
     };
@@ -667,7 +721,34 @@ fn pass(case: &W4Case, stats: &mut Vec<&'static str>, record_stats: bool) -> Opt
                     let (_a, pa) = cstr(Some(addr));
                     let t = if l.use_trusted { trusted } else { std::ptr::null() };
                     let r = if inject_null { std::ptr::null_mut() } else { s.req };
+                    // native twin: the address the library's own resolution gives for this request and configuration
+                    let expected = if r.is_null() {
+                        None
+                    } else {
+                        window(tag, || {
+                            let q = unsafe { &*r };
+                            let before = q.remote_addr;
+                            let parsed = std::str::from_utf8(&addr.bytes).ok().and_then(|a| a.parse::<redirectionio::http::Addr>().ok());
+                            Some(match parsed {
+                                None => before,
+                                Some(a) => {
+                                    let default_cfg = trusted_proxies::Config::default();
+                                    let cfg = if t.is_null() { &default_cfg } else { &native_cfg };
+                                    Some(trusted_proxies::Trusted::from(a.addr, q, cfg).ip())
+                                }
+                            })
+                        })
+                    };
                     window(tag, || unsafe { redirectionio_request_set_remote_addr(r, pa, t) });
+                    if let Some(exp) = expected {
+                        let got = unsafe { &*r }.remote_addr;
+                        if got != exp {
+                            pr.add("native-equality", format!("request_set_remote_addr({:?}, trusted={}): remote address {got:?}, the native resolution gives {exp:?}", String::from_utf8_lossy(&addr.bytes), !t.is_null()));
+                        }
+                    }
+                    if !t.is_null() && !trusted_handle_live(t, "request_set_remote_addr", &mut pr) {
+                        trusted = std::ptr::null();
+                    }
                 }
                 s.pc = S_REQ_JSON;
             }
